@@ -2053,7 +2053,10 @@ HMCgetdatainfo(int32 file_id, uint16 tag, uint16 ref, int32 *chk_coord, /* IN: c
 
                 /* Chunk is compressed */
                 if (spec_code == SPECIAL_COMP) {
-                    if (HP_read(file_rec, lbuf, (int)14) == FAIL)
+                    /* header version (2 bytes), uncompressed length (4), ref# of
+                       the compressed data (2): all that is needed here, and all
+                       that is certain to be in the file */
+                    if (HP_read(file_rec, lbuf, (int)8) == FAIL)
                         HGOTO_ERROR(DFE_READERROR, FAIL);
 
                     p = &lbuf[0];
